@@ -59,6 +59,7 @@ pub struct Style {
     pub decl: Option<&'static str>, // an XML declaration in front of the root, in this spelling
     pub root_comment: bool,
     pub after_root: Option<&'static str>, // Misc after the root element: comment, whitespace, PI
+    pub charref_attrs: bool, // attribute values spelled with character references
 }
 
 fn esc(s: &str) -> String {
@@ -114,6 +115,21 @@ fn write(
     out.push_str(&q);
     for (k, v) in &attrs {
         let v = esc(v).replace(qt, if qt == '"' { "&quot;" } else { "&apos;" });
+        // character references: the first character of the value (namespace declarations excepted:
+        // quick-xml compares namespace names as raw bytes); the message-id placeholder is replaced
+        // by a char-ref spelling of the real id where the id is filled in (`CRID`)
+        let v = if st.charref_attrs && !k.starts_with("xmlns") {
+            if v == "ID" {
+                "CRID".to_string()
+            } else {
+                match v.chars().next() {
+                    Some(c) if c != '&' => format!("&#x{:x};{}", c as u32, &v[c.len_utf8()..]),
+                    _ => v,
+                }
+            }
+        } else {
+            v
+        };
         out.push_str(&format!(" {k}={qt}{v}{qt}"));
     }
     let collapse_default = e.kids.is_empty()
@@ -267,6 +283,13 @@ pub fn variants(root: &El) -> Vec<(String, Style)> {
             },
         ));
     }
+    v.push((
+        "charref-attrs@*".into(),
+        Style {
+            charref_attrs: true,
+            ..Default::default()
+        },
+    ));
     v.push((
         "comment@root".into(),
         Style {
@@ -566,20 +589,22 @@ pub fn candidates_doc() -> El {
 async fn run_reply(kind: &str, text: &str) -> String {
     let t = text.to_string();
     reply::outcome(kind, move |id| {
+        let cr: String = id.chars().enumerate().map(|(i, c)| if i % 2 == 0 { format!("&#{};", c as u32) } else { format!("&#x{:x};", c as u32) }).collect();
         t.replace("message-id=\"ID\"", &format!("message-id=\"{id}\""))
             .replace("message-id='ID'", &format!("message-id='{id}'"))
+            .replace("message-id=\"CRID\"", &format!("message-id=\"{cr}\""))
     })
     .await
 }
 
 fn run_agent_installed(text: &str) -> String {
-    match agent::verif::read_installed(&text.replace("\"ID\"", "\"1\"").replace("'ID'", "'1'")) {
+    match agent::verif::read_installed(&text.replace("\"ID\"", "\"1\"").replace("'ID'", "'1'").replace("\"CRID\"", "\"&#49;\"")) {
         Ok(v) => format!("ok:{v:?}"),
         Err(_) => "err".into(),
     }
 }
 fn run_agent_candidates(text: &str) -> String {
-    match agent::verif::read_candidates(&text.replace("\"ID\"", "\"1\"").replace("'ID'", "'1'")) {
+    match agent::verif::read_candidates(&text.replace("\"ID\"", "\"1\"").replace("'ID'", "'1'").replace("\"CRID\"", "\"&#49;\"")) {
         Ok(v) => format!("ok:{v:?}"),
         Err(_) => "err".into(),
     }
@@ -639,7 +664,7 @@ pub fn main(opts: &Opts) {
                 })
             },
             &|t| {
-                let t = t.replace("\"ID\"", "\"1\"").replace("'ID'", "'1'");
+                let t = t.replace("\"ID\"", "\"1\"").replace("'ID'", "'1'").replace("\"CRID\"", "\"&#49;\"");
                 Some(format!(
                     "xml reply-for fixed {kind} 1 {}",
                     crate::xmltok::tokenize(&t)
